@@ -55,6 +55,15 @@ def run(ctx):
             cases.append(("apply_key_variant", (rng.randbytes(n), v)))
     for n in (0, 7, 9, 15, 17, 23, 25, 32):
         cases.append(("apply_key_variant", (rng.randbytes(n), rng.randrange(0, 32))))
+    # real DES keys: every byte already has odd parity (and the all-even counterpart), structured and text-like keys
+    from harness import gens
+    for n in (8, 16, 24):
+        odd = bytes(b if bin(b).count("1") % 2 else b ^ 1 for b in rng.randbytes(n))
+        even = bytes(b ^ 1 for b in odd)
+        for k in (odd, even, gens.key(rng, n), gens.text_like_bytes(rng, n), bytes(n), b"\xff" * n, b"\x01" * n):
+            for v in (list(range(0, 32)) if k in (odd, even) else (1, 2, 7, 8, 16, 31)):
+                cases.append(("apply_key_variant", (k, v)))
+            cases.append(("adjust_key_parity", (k,)))
     # xor over lengths 0..64 incl. unequal lengths
     for dl in range(0, 65 if ctx.thorough else 34):
         for ml in sorted({0, 1, dl // 2, max(0, dl - 1), dl, dl + 1, dl + 7}):
